@@ -40,6 +40,8 @@ type Lineage struct {
 	Nonce   string
 	Current string
 	All     []string
+	// Honest lists the honest ID tokens served to this lineage so far (what the session most likely holds)
+	Honest []string
 }
 
 // TokenCall is one ledger entry of the token endpoint.
@@ -507,6 +509,8 @@ func (p *IdP) process(call *TokenCall, beh *Behaviour) (int, string) {
 		call.IDToken = honest
 		if beh.Mutate != nil {
 			call.IDToken = beh.Mutate(p, honest, claims, call)
+		} else if lin != nil {
+			lin.Honest = append(lin.Honest, honest)
 		}
 		resp["id_token"] = call.IDToken
 	}
